@@ -19,6 +19,11 @@ pub struct FrameSpec {
     pub seed: u32,
     /// flags after this frame (1 = shared with the next frame)
     pub sep_flags: u8,
+    /// after those flags the line idles: this many one-bits (1-5: a too-short non-frame between
+    /// flags; 7 and more: abort / mark idle), followed by one more flag.  6 is not used (it
+    /// would be a flag sharing both its zeroes with its neighbours).
+    #[serde(default)]
+    pub idle_ones: u8,
 }
 impl FrameSpec {
     pub fn payload(&self) -> Vec<u8> {
@@ -69,8 +74,9 @@ fn frame_strategy(maxlen: u16) -> impl Strategy<Value = FrameSpec> {
         0u8..6,
         any::<u32>(),
         prop_oneof![3 => Just(1u8), 2 => 2u8..4],
+        prop_oneof![6 => Just(0u8), 1 => 1u8..6, 2 => 7u8..21, 1 => 7u8..61],
     )
-        .prop_map(|(len, pat, seed, sep_flags)| FrameSpec { len, pat, seed, sep_flags })
+        .prop_map(|(len, pat, seed, sep_flags, idle_ones)| FrameSpec { len, pat, seed, sep_flags, idle_ones })
 }
 
 fn case_strategy(max_sched: usize) -> BoxedStrategy<C13Case> {
@@ -166,6 +172,11 @@ pub fn transmission(c: &C13Case) -> Tx {
         for _ in 0..f.sep_flags.max(1) {
             bits.extend(FLAG_BITS);
         }
+        if f.idle_ones > 0 {
+            let k = if f.idle_ones == 6 { 7 } else { f.idle_ones };
+            bits.extend(std::iter::repeat(1u8).take(k as usize));
+            bits.extend(FLAG_BITS);
+        }
     }
     Tx { bits, bodies, has_stuffing_next_to_flag: adj }
 }
@@ -239,8 +250,8 @@ impl Prop for C13 {
             for (checksum, fix) in [(true, false), (true, true)] {
                 let base = C13Case {
                     frames: vec![
-                        FrameSpec { len, pat, seed, sep_flags: 1 },
-                        FrameSpec { len: 7, pat: 0, seed: seed + 1, sep_flags: 2 },
+                        FrameSpec { len, pat, seed, sep_flags: 1, idle_ones: 0 },
+                        FrameSpec { len: 7, pat: 0, seed: seed + 1, sep_flags: 2, idle_ones: 0 },
                     ],
                     noise_len: 0,
                     noise_seed: 0,
